@@ -19,7 +19,8 @@ RULE = ("cases = (IP configuration: both families, host bits in {0,1,8,31,32,...
         "token at the same position in the written files); the dump is parsed line by line with ipaddress. Oracles: "
         "every address whose written replacement differs from it has a dump line with exactly that replacement; no "
         "original and no replacement occurs twice; EVERY dumped pair agrees with a fresh-instance reference; masks and "
-        "preserved addresses are absent or identity. distinct_nontrivial = distinct (config, address) applied pairs "
+        "preserved addresses are absent or identity. A few runs per shard are LARGE (thousands of distinct addresses of "
+        "both families with host bits 0/8) so that memo limits are crossed. distinct_nontrivial = distinct (config, address) applied pairs "
         "found in a dump.")
 ASSUMPTIONS = ["extra dump lines (e.g. identity entries seeded for /32 preserved prefixes) are allowed iff they agree with the reference"]
 DECIDING = ["applied_pairs_checked", "dump_lines_checked"]
